@@ -143,7 +143,7 @@ def run(ctx: common.Ctx):
         'pairs of keys, sorted - with the graph of the Lean model Tvg.createVariantGraph on the same '
         'transcript fields and the same records in the order the real call received them; '
         'non-trivial = the graph has a variant node')
-    base = dict(vary=True, per_tx=(1, 7), max_size=6, window=24, witness=False, as_frac=0.3)
+    base = dict(vary=True, per_tx=(1, 7), max_size=6, window=24, witness=False, as_frac=0.3, junction_mnv=0.1)
     res = cv_checks.explore(ctx, ctx.n(220, 4000), dict(base, exception=None, variations=['collapse'], stages=True,
                                                         tvgbuild=True))
     stats = dict(ctx.coverage['worker_stats'])
